@@ -56,7 +56,9 @@ def current_of(choice):
 PROBE_TEXT = "\x1b[1mX\x1b[0m"
 
 
-def check_log(path, run_name, stdout_is_tty, res, counters, seen, full):
+def check_log(path, run_name, stdout_is_tty, res, counters, seen, full, stderr_is_tty=None):
+    if stderr_is_tty is None:
+        stderr_is_tty = stdout_is_tty
     n_events = 0
     for line in open(path):
         line = line.strip()
@@ -104,7 +106,8 @@ def check_log(path, run_name, stdout_is_tty, res, counters, seen, full):
                 res.violation("c09:stdout-lock", "[%s] AutoStream::choice(&stdout.lock()) = %s differs from choice(&stdout)" % (run_name, d["choice"]), check="c09")
                 continue
             # which streams are terminals is arranged by the driver; the child's own std observation must agree
-            arranged = {"vec": False, "file": False, "ttyfile": True, "stdout": stdout_is_tty, "stderr": stdout_is_tty}[kind]
+            arranged = {"vec": False, "file": False, "ttyfile": True, "mut_ttyfile": True, "box_dyn": False, "stdout": stdout_is_tty, "stdout_lock": stdout_is_tty,
+                        "stderr": stderr_is_tty, "stderr_lock": stderr_is_tty}[kind]
             if d["is_terminal_std"] != arranged:
                 raise Inconclusive("[%s] stream %s: driver arranged terminal=%s but the child observes %s" % (run_name, kind, arranged, d["is_terminal_std"]))
             ck = "decisions_terminal" if arranged else "decisions_non_terminal"
@@ -153,26 +156,26 @@ def run(res, tier):
             modes.append(("extra", [str(common.SEED), "2000"]))
         total = 0
         for mode, extra in modes:
-            for run_name, use_tty in (("pipes", False), ("pty", True)):
-                if use_tty and slave is None:
+            # (stdout is a terminal, stderr is a terminal): both pipes, both on a pty, and the two mixed layouts
+            for run_name, out_tty, err_tty in (("pipes", False, False), ("pty", True, True), ("out-pipe/err-pty", False, True), ("out-pty/err-pipe", True, False)):
+                if (out_tty or err_tty) and slave is None:
                     continue
-                log = os.path.join(work, "log-%s-%s.jsonl" % (mode, run_name))
+                if mode == "extra" and out_tty != err_tty:
+                    continue
+                log = os.path.join(work, "log-%s-%s.jsonl" % (mode, run_name.replace("/", "_")))
                 cmd = [exe, log, os.path.join(work, "regular.txt"), tty_path, mode] + (extra if extra else [str(common.SEED)])
-                if use_tty:
-                    p = subprocess.run(cmd, env=env, stdin=subprocess.DEVNULL, stdout=slave, stderr=slave, timeout=900)
-                else:
-                    p = subprocess.run(cmd, env=env, stdin=subprocess.DEVNULL, stdout=subprocess.PIPE, stderr=subprocess.PIPE, timeout=900)
+                p = subprocess.run(cmd, env=env, stdin=subprocess.DEVNULL, stdout=slave if out_tty else subprocess.DEVNULL, stderr=slave if err_tty else subprocess.PIPE, timeout=900)
                 if p.returncode != 0:
-                    raise Inconclusive("vh-env exited with %d (%s/%s): %s" % (p.returncode, mode, run_name, (p.stderr or b"")[-500:] if not use_tty else ""))
-                n = check_log(log, run_name, use_tty, res, counters, seen, mode == "full")
+                    raise Inconclusive("vh-env exited with %d (%s/%s): %s" % (p.returncode, mode, run_name, (p.stderr or b"")[-500:]))
+                n = check_log(log, run_name, out_tty, res, counters, seen, mode == "full", err_tty)
                 total += n
-                res.lanes.append({"lane": "child:%s:%s" % (mode, run_name), "verdict": "held", "evaluations": n, "observed": {"events": n, "stdout_is_tty": use_tty}})
+                res.lanes.append({"lane": "child:%s:%s" % (mode, run_name), "verdict": "held", "evaluations": n, "observed": {"events": n, "stdout_is_tty": out_tty, "stderr_is_tty": err_tty}})
         # completeness of the cross product (every tuple exactly once per run)
         v4 = [None, b"", b"0", b"1"]
         term = [None, b"", b"dumb", b"xterm-256color"]
         ci = [None, b"", b"true"]
         missing = dup = 0
-        runs = ["pipes"] + (["pty"] if slave is not None else [])
+        runs = ["pipes"] + (["pty", "out-pipe/err-pty", "out-pty/err-pipe"] if slave is not None else [])
         for rn in runs:
             for g in ("Auto", "AlwaysAnsi", "Always", "Never"):
                 for a in v4:
@@ -192,11 +195,11 @@ def run(res, tier):
         counters["cross_product_tuples_missing"] = missing
         counters["cross_product_tuples_duplicated"] = dup
         res.evaluations += counters.get("decisions_checked", 0) + counters.get("clap_events", 0)
-        res.distinct += len(seen) * 5 if slave is not None else len(seen) * 4
+        res.distinct += len(seen) * (9 if slave is not None else 7)
         res.lanes.append({"lane": "offline-decision-table-checker", "verdict": "held" if not res.violations else "violated", "evaluations": counters.get("decisions_checked", 0), "observed": counters})
         res.samples.append({"global": "Auto", "NO_COLOR": None, "CLICOLOR_FORCE": None, "CLICOLOR": "1", "TERM": "dumb", "CI": None, "stream": "stdout on a pty", "expected_choice": expected_choice("Auto", {"NO_COLOR": None, "CLICOLOR_FORCE": None, "CLICOLOR": b"1", "TERM": b"dumb", "CI": None, "COLORTERM": None}, True)})
         res.samples.append({"global": "Auto", "NO_COLOR": "", "CLICOLOR_FORCE": "0", "CLICOLOR": "0", "TERM": "xterm-256color", "CI": "true", "stream": "vec", "expected_choice": expected_choice("Auto", {"NO_COLOR": b"", "CLICOLOR_FORCE": b"0", "CLICOLOR": b"0", "TERM": b"xterm-256color", "CI": b"true", "COLORTERM": None}, False)})
-        res.exhaustive_parts.append("global choice {Auto, AlwaysAnsi, Always, Never} x NO_COLOR x CLICOLOR_FORCE x CLICOLOR {unset,'','0','1'} x TERM {unset,'','dumb','xterm-256color'} x CI {unset,'','true'} = 3072 environments x {Vec, regular file, pty file, stdout, stderr}, stdout/stderr once on pipes and once on a pty; COLORTERM x 8 values; 10 clap command lines")
+        res.exhaustive_parts.append("global choice {Auto, AlwaysAnsi, Always, Never} x NO_COLOR x CLICOLOR_FORCE x CLICOLOR {unset,'','0','1'} x TERM {unset,'','dumb','xterm-256color'} x CI {unset,'','true'} = 3072 environments x {Vec, Box<dyn Write>, regular file, pty file, &mut pty file, stdout, stdout lock, stderr, stderr lock}, the child run with stdout/stderr on pipes, both on a pty, and in the two mixed layouts; COLORTERM x 8 values; 10 clap command lines")
         for fd in (master, slave, master2, slave2):
             if fd is not None:
                 try:
@@ -249,3 +252,32 @@ def adapted_lane(res):
         res.add_lane("to_adapted_string", "held", {"calls_checked": n, "by_detected_choice": by_choice}, evaluations=n, distinct=len(by_choice))
     finally:
         shutil.rmtree(work, ignore_errors=True)
+
+
+# (first part, rest, stripped form) per stream; mirrors vh-mt's lockseq mode
+LOCKSEQ = {
+    "stdout": [(b"name\x1b[3", b"8;5;208m value\x1b[0m\n", b"name value\n"), (b"t\x1b]0;ti", b"tle\x07x\n", b"tx\n"), (b"a\x1b[1mb", b"\x1b[0mc\n", b"abc\n")],
+    "stderr": [(b"na\xc3", b"\xafve\n", b"na\xc3\xafve\n"), (b"warn\x1b[", b"33m: x\x1b[m\n", b"warn: x\n")],
+}
+
+
+def lockseq_lane(res):
+    """AutoStream<Stdout/Stderr>::lock() must keep the mode and the parser state: a sequence / character begun through the
+    unlocked stream is completed through the lock guard (child process, output captured from pipes)."""
+    td = common.cargo_build(["vh-mt"], "release")
+    exe = os.path.join(td, "release", "vh-mt")
+    n = 0
+    for mode, var in (("strip", "NO_COLOR"), ("pass-through", "CLICOLOR_FORCE")):
+        env = dict(common.ENV)
+        for k in VARS:
+            env.pop(k, None)
+        env[var] = "1"
+        p = subprocess.run([exe, "lockseq"], env=env, stdin=subprocess.DEVNULL, stdout=subprocess.PIPE, stderr=subprocess.PIPE, timeout=120)
+        if p.returncode != 0:
+            raise Inconclusive("vh-mt lockseq exited with %d: %s" % (p.returncode, p.stderr[-300:]))
+        for stream, got in (("stdout", p.stdout), ("stderr", p.stderr)):
+            want = b"".join((c[2] if mode == "strip" else c[0] + c[1]) for c in LOCKSEQ[stream])
+            n += len(LOCKSEQ[stream])
+            if got != want:
+                res.violation("c08:lock-sequence:%s" % mode, "[%s %s] a sequence begun before lock() and finished through the lock guard came out as %r, expected %r" % (mode, stream, got, want), check="c08", lane="lock-sequence")
+    res.add_lane("lock-sequence", "held", {"sequences_split_across_lock": n, "modes": ["strip", "pass-through"]}, evaluations=n, distinct=n)
